@@ -36,6 +36,10 @@ def run(ctx):
     ctx.guard(rule_f, ctx, ix)
     ctx.guard(rule_g, ctx, ix)
     ctx.guard(rule_h, ctx, ix)
+    # a region's containment test must not depend on the absolute size of the numbers: the scale-free rule of the polygon helpers
+    from ..report import BorrowedCtx
+    from .C09 import rule_g as _scale_free
+    ctx.guard(_scale_free, BorrowedCtx(ctx, {'C09.g': 'C08.i'}), ix)
 
 
 def _concrete(f):
